@@ -102,6 +102,32 @@ pub fn tt_neutralise() {
     }
 }
 
+static TT_SNAPSHOT: Mutex<Option<Vec<(u64, TTEntry)>>> = Mutex::new(None);
+
+/// The cache contents, sorted by key.
+pub fn tt_contents() -> Vec<(u64, TTEntry)> {
+    let tt = TRANSPOSITION_TABLE
+        .read()
+        .unwrap_or_else(|e| e.into_inner());
+    let mut v: Vec<(u64, TTEntry)> = tt.iter().map(|(k, e)| (k.rce_verif_u64(), *e)).collect();
+    v.sort_by_key(|x| x.0);
+    v
+}
+
+/// Remembers the cache contents at the moment an injected interruption takes effect (only while
+/// the observer is armed). A later comparison with the final contents shows every write that
+/// happened after the cut, whichever insert site made it.
+fn tt_snapshot_at_cut() {
+    if TT_OBSERVE.load(Ordering::Relaxed) {
+        let snap = tt_contents();
+        *TT_SNAPSHOT.lock().unwrap_or_else(|e| e.into_inner()) = Some(snap);
+    }
+}
+
+pub fn tt_take_snapshot() -> Option<Vec<(u64, TTEntry)>> {
+    TT_SNAPSHOT.lock().unwrap_or_else(|e| e.into_inner()).take()
+}
+
 pub fn tt_clear() {
     TRANSPOSITION_TABLE
         .write()
@@ -121,6 +147,7 @@ pub fn on_is_running(flag: &AtomicBool) {
     let n = RUNNING_CALLS.fetch_add(1, Ordering::Relaxed) + 1;
     if n == STOP_AT.load(Ordering::Relaxed) {
         flag.store(false, Ordering::Relaxed);
+        tt_snapshot_at_cut();
     }
 }
 
@@ -158,7 +185,9 @@ pub fn virtual_start(start: Instant) -> Instant {
     let n = CLOCK_CALLS.fetch_add(1, Ordering::Relaxed) + 1;
     let k = CLOCK_FIRE_AT.load(Ordering::Relaxed);
     if k != 0 && n >= k {
-        CLOCK_FIRED.store(true, Ordering::Relaxed);
+        if !CLOCK_FIRED.swap(true, Ordering::Relaxed) {
+            tt_snapshot_at_cut();
+        }
         far_past()
     } else {
         // an instant in the future: `elapsed()` saturates to zero however long the thread is
